@@ -184,8 +184,8 @@ def sched_configs(r, tier):
 # (system, workers, sample size | None = all, late completions while the main
 # loop is held after a success)
 REPLAY = {'quick': [('ab', 2, 80, 1)],
-          'thorough': [('ab', 2, 1200, 1), ('a_b', 2, 600, 1),
-                       ('abc', 2, 300, 1), ('ab_c', 3, None, 1, 'num=400')]}
+          'thorough': [('ab', 2, 600, 1), ('a_b', 2, 300, 1),
+                       ('abc', 2, 200, 1), ('ab_c', 3, None, 1, 'num=300')]}
 
 
 DREPLAY = {'quick': [(4, None)], 'thorough': [(5, None), (6, 400)]}
